@@ -11,7 +11,7 @@ Import ListNotations.
 Lemma fold_add_sum {A} (h : A -> nat) (l : list A) (a : nat) :
   fold_left (fun acc x => acc + h x) l a = a + list_sum (map h l).
 Proof.
-  revert a. induction l as [|x l IH]; intros a; cbn [fold_left map list_sum].
+  revert a. induction l as [|x l IH]; intros a; simpl.
   - lia.
   - rewrite IH. lia.
 Qed.
@@ -28,14 +28,14 @@ Lemma sum_split {A} (h : A -> nat) (p : A -> bool) (l : list A) :
   list_sum (map h l)
   = list_sum (map h (filter (fun x => negb (p x)) l)) + list_sum (map h (filter p l)).
 Proof.
-  induction l as [|x l IH]; cbn [map list_sum filter]; [reflexivity|].
-  destruct (p x); cbn [negb map list_sum]; lia.
+  induction l as [|x l IH]; simpl; [reflexivity|].
+  destruct (p x); simpl; lia.
 Qed.
 
 Lemma sum_scaled {A} (h k : A -> nat) (c : nat) (l : list A) :
   (forall x, In x l -> h x = k x * c) -> list_sum (map h l) = c * list_sum (map k l).
 Proof.
-  induction l as [|x l IH]; intros H; cbn [map list_sum]; [lia|].
+  induction l as [|x l IH]; intros H; simpl; [lia|].
   rewrite IH by (intros y Hy; apply H; right; exact Hy).
   rewrite (H x) by (left; reflexivity). lia.
 Qed.
@@ -47,38 +47,17 @@ Proof.
   rewrite (H x) by (left; reflexivity). f_equal. apply IH. intros y Hy. apply H. right. exact Hy.
 Qed.
 
+Lemma filter_cons_true {A} (p : A -> bool) (x : A) (l : list A) :
+  p x = true -> filter p (x :: l) = x :: filter p l.
+Proof. intros H. simpl. rewrite H. reflexivity. Qed.
+
 Lemma flat_map_len {A B} (g : A -> list B) (l : list A) :
   length (flat_map g l) = list_sum (map (fun x => length (g x)) l).
 Proof.
-  induction l as [|x l IH]; cbn [flat_map map list_sum]; [reflexivity|].
+  induction l as [|x l IH]; simpl; [reflexivity|].
   rewrite app_length, IH. reflexivity.
 Qed.
 
-Lemma NoDup_flat_map {A B} (g : A -> list B) (l : list A) :
-  NoDup l ->
-  (forall x, In x l -> NoDup (g x)) ->
-  (forall x y b, In x l -> In y l -> In b (g x) -> In b (g y) -> x = y) ->
-  NoDup (flat_map g l).
-Proof.
-  induction l as [|x l IH]; intros Hnd Hg Hdis; cbn [flat_map]; [constructor|].
-  inversion Hnd as [|? ? Hx Hl]; subst.
-  assert (Hrest : NoDup (flat_map g l)).
-  { apply IH; [exact Hl | intros y Hy; apply Hg; right; exact Hy |].
-    intros y z b Hy Hz. apply Hdis; right; assumption. }
-  assert (Hgx : NoDup (g x)) by (apply Hg; left; reflexivity).
-  revert Hgx. generalize (g x) at 1 3 as gx. intros gx Hgx.
-  assert (Hsep : forall b, In b gx -> In b (g x) -> ~ In b (flat_map g l)).
-  { intros b _ Hb Hin. apply in_flat_map in Hin. destruct Hin as [y [Hy Hby]].
-    assert (x = y) by (apply (Hdis x y b); [left; reflexivity | right; exact Hy | exact Hb | exact Hby]).
-    subst y. contradiction. }
-  clear Hg Hdis IH.
-  assert (Hsub : forall b, In b gx -> In b (g x) -> ~ In b (flat_map g l)) by exact Hsep.
-  clear Hsep.
-  (* gx is a sublist view of g x: we only need: every element of gx that is in g x is fresh *)
-  admit_placeholder.
-Abort.
-
-(** a simpler route: NoDup of an append *)
 Lemma NoDup_app_intro {A} (l1 l2 : list A) :
   NoDup l1 -> NoDup l2 -> (forall a, In a l1 -> ~ In a l2) -> NoDup (l1 ++ l2).
 Proof.
@@ -137,6 +116,22 @@ Proof.
     rewrite (Nat.div_unique (r + b * q) b q' r' Hr' ltac:(lia)). reflexivity. }
   subst q'. split; lia.
 Qed.
+
+(** [lia] does not see that a product [a * (t - 1)] of naturals is non-negative *)
+Ltac pos_products :=
+  repeat match goal with
+         | |- context [?a * (?t - 1)] =>
+           lazymatch goal with
+           | _ : 0 <= a * (t - 1) |- _ => fail
+           | _ => pose proof (Nat.le_0_l (a * (t - 1)))
+           end
+         | _ : context [?a * (?t - 1)] |- _ =>
+           lazymatch goal with
+           | _ : 0 <= a * (t - 1) |- _ => fail
+           | _ => pose proof (Nat.le_0_l (a * (t - 1)))
+           end
+         end.
+Ltac plia := pos_products; lia.
 
 (** * The layout of one flat record *)
 Section LayoutProofs.
@@ -237,15 +232,17 @@ Qed.
 Lemma prev_lt_count : forall f t, 1 <= t <= T -> applies_at fb f t = true -> prev f t < count f.
 Proof.
   intros f t Ht Happ. unfold prev, previous_trials_count, count.
-  rewrite (seq_split3 t T Ht), filter_app. cbn [filter]. rewrite Happ.
-  rewrite app_length. cbn [length]. lia.
+  change (fun t0 : nat => applies_at fb f t0) with (applies_at fb f).
+  rewrite (seq_split3 t T Ht), filter_app, (filter_cons_true _ _ _ Happ).
+  rewrite app_length. simpl length. lia.
 Qed.
 
 Lemma prev_mono : forall f t t', 1 <= t -> t < t' -> applies_at fb f t = true -> prev f t < prev f t'.
 Proof.
   intros f t t' H1 Hlt Happ. unfold prev, previous_trials_count.
-  rewrite (seq_split3 t (t' - 1) ltac:(lia)), filter_app. cbn [filter]. rewrite Happ.
-  rewrite app_length. cbn [length]. lia.
+  change (fun t0 : nat => applies_at fb f t0) with (applies_at fb f).
+  rewrite (seq_split3 t (t' - 1) ltac:(lia)), filter_app, (filter_cons_true _ _ _ Happ).
+  rewrite app_length. simpl length. lia.
 Qed.
 
 Lemma prev_inj : forall f t t',
@@ -264,7 +261,7 @@ Lemma so_some : forall fs f, In f fs ->
   exists o, simple_offset fb fs f = Some o /\ o + nl f <= list_sum (map nl fs).
 Proof.
   induction fs as [|g fs IH]; intros f Hin; [contradiction|].
-  cbn [simple_offset map list_sum]. destruct (g =? f) eqn:E.
+  simpl. destruct (g =? f) eqn:E.
   - apply Nat.eqb_eq in E. subst g. exists 0. split; [reflexivity | lia].
   - destruct Hin as [Hin|Hin]; [subst g; rewrite Nat.eqb_refl in E; discriminate|].
     destruct (IH f Hin) as [o [Ho Hb]]. rewrite Ho. exists (nl g + o). split; [reflexivity | lia].
@@ -273,7 +270,7 @@ Qed.
 Lemma so_bound : forall fs f o, simple_offset fb fs f = Some o -> o + nl f <= list_sum (map nl fs).
 Proof.
   induction fs as [|g fs IH]; intros f o H; [discriminate|].
-  cbn [simple_offset map list_sum] in *. destruct (g =? f) eqn:E.
+  simpl in *. destruct (g =? f) eqn:E.
   - apply Nat.eqb_eq in E. subst g. injection H as <-. lia.
   - destruct (simple_offset fb fs f) as [o'|] eqn:Ho; [|discriminate].
     cbn [option_map] in H. injection H as <-. specialize (IH f o' Ho). lia.
@@ -326,7 +323,7 @@ Lemma co_bound : forall fs f, In f fs ->
   complex_offset fb fs f 0 + variables_for_factor fb f 0 0 <= list_sum (map vff fs).
 Proof.
   induction fs as [|g fs IH]; intros f Hin; [contradiction|].
-  cbn [complex_offset map list_sum]. destruct (g =? f) eqn:E.
+  simpl. destruct (g =? f) eqn:E.
   - apply Nat.eqb_eq in E. subst g. lia.
   - destruct Hin as [Hin|Hin]; [subst g; rewrite Nat.eqb_refl in E; discriminate|].
     specialize (IH f Hin). lia.
@@ -383,8 +380,8 @@ Lemma simple_var_bounds : forall f l t o,
     o + l < vpt /\ o + l + vpt * (t - 1) + 1 <= grid.
 Proof.
   intros f l t o Hf Hl Ht Ho. pose proof (so_bound SA f o Ho) as Hb. rewrite <- vpt_sum in Hb.
-  split; [lia|]. unfold grid_variables, trials.
-  assert (vpt * (t - 1) + vpt <= T * vpt) by nia. lia.
+  split; [plia|]. unfold grid_variables, trials.
+  assert (vpt * (t - 1) + vpt <= T * vpt) by nia. plia.
 Qed.
 
 Lemma complex_var_bounds : forall f l t,
@@ -394,7 +391,7 @@ Lemma complex_var_bounds : forall f l t,
 Proof.
   intros f l t Hf Hl Ht Happ. pose proof (prev_lt_count f t Ht Happ) as Hp.
   pose proof (co_bound CA f Hf) as Hb. rewrite vps_split. rewrite vff_count in *.
-  assert (l + nl f * prev f t < nl f * count f) by nia. split; lia.
+  assert (l + nl f * prev f t < nl f * count f) by nia. split; plia.
 Qed.
 
 (** ** the theorems *)
@@ -404,9 +401,9 @@ Theorem encode_range : forall f l t,
 Proof.
   intros f l t [HfA [Hl [Ht Happ]]]. destruct (act_cases f HfA) as [Hf|Hf].
   - destruct (enc_simple f l t Hf Hl) as [o [Ho He]]. rewrite He. eexists. split; [reflexivity|].
-    destruct (simple_var_bounds f l t o Hf Hl Ht Ho) as [_ Hg]. rewrite vps_split. lia.
+    destruct (simple_var_bounds f l t o Hf Hl Ht Ho) as [_ Hg]. rewrite vps_split. plia.
   - rewrite (enc_complex f l t Hf). eexists. split; [reflexivity|].
-    destruct (complex_var_bounds f l t Hf Hl Ht Happ) as [_ Hg]. lia.
+    destruct (complex_var_bounds f l t Hf Hl Ht Happ) as [_ Hg]. plia.
 Qed.
 
 Theorem encode_inj : forall f l t f' l' t',
@@ -422,39 +419,50 @@ Proof.
     rewrite He, He' in Heq. injection Heq as Heq.
     destruct (simple_var_bounds f l t o Hf Hl Ht Ho) as [Hb _].
     destruct (simple_var_bounds f' l' t' o' Hf' Hl' Ht' Ho') as [Hb' _].
-    destruct (divmod_unique vpt (o + l) (t - 1) (o' + l') (t' - 1) Hb Hb' ltac:(lia)) as [Hol Htt].
+    destruct (divmod_unique vpt (o + l) (t - 1) (o' + l') (t' - 1) Hb Hb' ltac:(plia)) as [Hol Htt].
     destruct (Nat.eq_dec f f') as [->|Hne].
-    + rewrite Ho in Ho'. injection Ho' as <-. repeat split; lia.
-    + destruct (so_disjoint SA f f' o o' Ho Ho' Hne); lia.
+    + rewrite Ho in Ho'. injection Ho' as <-. repeat split; plia.
+    + destruct (so_disjoint SA f f' o o' Ho Ho' Hne); plia.
   - (* grid vs. complex: different regions *)
     destruct (enc_simple f l t Hf Hl) as [o [Ho He]].
     rewrite He, (enc_complex f' l' t' Hf') in Heq. injection Heq as Heq.
-    destruct (simple_var_bounds f l t o Hf Hl Ht Ho) as [_ Hg]. lia.
+    destruct (simple_var_bounds f l t o Hf Hl Ht Ho) as [_ Hg]. plia.
   - destruct (enc_simple f' l' t' Hf' Hl') as [o' [Ho' He']].
     rewrite He', (enc_complex f l t Hf) in Heq. injection Heq as Heq.
-    destruct (simple_var_bounds f' l' t' o' Hf' Hl' Ht' Ho') as [_ Hg]. lia.
+    destruct (simple_var_bounds f' l' t' o' Hf' Hl' Ht' Ho') as [_ Hg]. plia.
   - (* both complex *)
     rewrite (enc_complex f l t Hf), (enc_complex f' l' t' Hf') in Heq. injection Heq as Heq.
     destruct (complex_var_bounds f l t Hf Hl Ht Happ) as [Hb _].
     destruct (complex_var_bounds f' l' t' Hf' Hl' Ht' Happ') as [Hb' _].
     destruct (Nat.eq_dec f f') as [<-|Hne].
-    + destruct (divmod_unique (nl f) l (prev f t) l' (prev f t') Hl Hl' ltac:(lia)) as [Hll Hpp].
-      repeat split; [exact Hll|]. apply (prev_inj f); try assumption; lia.
-    + destruct (co_disjoint CA f f' Hf Hf' Hne); lia.
+    + destruct (divmod_unique (nl f) l (prev f t) l' (prev f t') Hl Hl' ltac:(plia)) as [Hll Hpp].
+      repeat split; [exact Hll|]. apply (prev_inj f); try assumption; plia.
+    + destruct (co_disjoint CA f f' Hf Hf' Hne); plia.
 Qed.
 
 (** the search of [decode_variable] among the complex factors, as a global function *)
-Fixpoint dgo (v0 : nat) (fs : list nat) : option (nat * nat) :=
-  match fs with
-  | [] => None
-  | g :: gs =>
-    match first_variable_for_level fb g 0 with
-    | Some start =>
-      if (start <=? v0) && (v0 <? start + variables_for_factor fb g 0 0)
-      then Some (g, (v0 - start) mod nlevels fb g) else dgo v0 gs
-    | None => dgo v0 gs
-    end
-  end.
+Definition dgo (v0 : nat) : list nat -> option (nat * nat) :=
+  fix go (fs : list nat) : option (nat * nat) :=
+    match fs with
+    | [] => None
+    | g :: gs =>
+      match first_variable_for_level fb g 0 with
+      | Some start =>
+        if (start <=? v0) && (v0 <? start + variables_for_factor fb g 0 0)
+        then Some (g, (v0 - start) mod nlevels fb g) else go gs
+      | None => go gs
+      end
+    end.
+
+Lemma dgo_cons : forall v0 g gs,
+    dgo v0 (g :: gs)
+    = match first_variable_for_level fb g 0 with
+      | Some start =>
+        if (start <=? v0) && (v0 <? start + variables_for_factor fb g 0 0)
+        then Some (g, (v0 - start) mod nlevels fb g) else dgo v0 gs
+      | None => dgo v0 gs
+      end.
+Proof. reflexivity. Qed.
 
 Lemma decode_variable_unfold : forall v,
     decode_variable fb v
@@ -470,7 +478,7 @@ Proof.
   assert (HgCA : In g CA) by (rewrite Hca; apply in_or_app; right; left; reflexivity).
   assert (HfCA : In f CA) by (rewrite Hca; apply in_or_app; right; exact Hin).
   pose proof HgCA as Hgc. apply in_CA in Hgc. destruct Hgc as [_ Hgc].
-  cbn [dgo]. unfold first_variable_for_level. rewrite Hgc.
+  rewrite dgo_cons. unfold first_variable_for_level. rewrite Hgc.
   destruct (Nat.eq_dec g f) as [->|Hne].
   - replace ((grid + complex_offset fb CA f 0 <=? v0) &&
              (v0 <? grid + complex_offset fb CA f 0 + variables_for_factor fb f 0 0)) with true.
@@ -482,6 +490,7 @@ Proof.
       * rewrite <- app_assoc. exact Hca.
       * destruct Hin as [Hin|Hin]; [congruence | exact Hin].
       * intros H. apply in_app_or in H. destruct H as [H|[H|[]]]; [contradiction | congruence].
+      * exact Hv.
     + symmetry. apply andb_false_iff.
       destruct (co_disjoint CA g f HgCA HfCA Hne).
       * right. apply Nat.ltb_ge. lia.
@@ -495,19 +504,19 @@ Proof.
   destruct (act_cases f HfA) as [Hf|Hf].
   - destruct (enc_simple f l t Hf Hl) as [o [Ho He']]. rewrite He' in He. injection He as <-.
     destruct (simple_var_bounds f l t o Hf Hl Ht Ho) as [Hb Hg].
-    replace (o + l + vpt * (t - 1) + 1 - 1) with (o + l + (t - 1) * vpt) by lia.
-    replace (o + l + (t - 1) * vpt <? grid) with true by (symmetry; apply Nat.ltb_lt; lia).
-    rewrite Nat.mod_add by lia. rewrite Nat.mod_small by exact Hb.
+    replace (o + l + vpt * (t - 1) + 1 - 1) with (o + l + (t - 1) * vpt) by plia.
+    replace (o + l + (t - 1) * vpt <? grid) with true by (symmetry; apply Nat.ltb_lt; plia).
+    rewrite Nat.mod_add by plia. rewrite Nat.mod_small by exact Hb.
     apply so_nth; assumption.
   - rewrite (enc_complex f l t Hf) in He. injection He as <-.
     destruct (complex_var_bounds f l t Hf Hl Ht Happ) as [Hb Hg].
     set (v0 := grid + complex_offset fb CA f 0 + l + nl f * prev f t + 1 - 1).
-    replace (v0 <? grid) with false by (symmetry; apply Nat.ltb_ge; unfold v0; lia).
-    rewrite (dgo_spec CA [] f v0 eq_refl Hf ltac:(intros []) ltac:(unfold v0; lia)).
+    replace (v0 <? grid) with false by (symmetry; apply Nat.ltb_ge; unfold v0; plia).
+    rewrite (dgo_spec CA [] f v0 eq_refl Hf ltac:(intros []) ltac:(unfold v0; plia)).
     f_equal. f_equal. unfold v0.
     replace (grid + complex_offset fb CA f 0 + l + nl f * prev f t + 1 - 1 - (grid + complex_offset fb CA f 0))
-      with (l + prev f t * nl f) by lia.
-    rewrite Nat.mod_add by lia. apply Nat.mod_small. exact Hl.
+      with (l + prev f t * nl f) by plia.
+    rewrite Nat.mod_add by plia. apply Nat.mod_small. exact Hl.
 Qed.
 
 (** ** onto: the list of all applicable triples, and pigeonhole *)
@@ -533,7 +542,7 @@ Lemma triples_length : length triples = vps.
 Proof.
   unfold triples. rewrite flat_map_len. unfold variables_per_sample. rewrite fold_add_sum. cbn [Nat.add].
   f_equal. apply map_ext. intros f. rewrite vff_count, flat_map_len.
-  unfold count. induction (filter (applies_at fb f) (seq 1 T)) as [|t ts IH]; cbn [map list_sum length].
+  unfold count. induction (filter (applies_at fb f) (seq 1 T)) as [|t ts IH]; simpl.
   - lia.
   - rewrite IH, map_length, seq_length. lia.
 Qed.
@@ -571,9 +580,9 @@ Proof.
   { intros a Ha. apply in_map_iff in Ha. destruct Ha as [[[f l] t] [Hea Hx]]. apply in_triples in Hx.
     unfold enc_or_0 in Hea. cbn [fst snd] in Hea.
     destruct (encode_range f l t Hx) as [b [Hb Hr]]. rewrite Hb in Hea. subst b. apply in_seq. lia. }
-  assert (Hin : In v (map enc_or_0 triples)).
-  { apply (NoDup_length_incl Hnd); [rewrite map_length, triples_length, seq_length; lia | exact Hincl |].
-    apply in_seq. lia. }
+  assert (Hback : incl (seq 1 vps) (map enc_or_0 triples)).
+  { apply NoDup_length_incl; [exact Hnd | rewrite map_length, triples_length, seq_length; lia | exact Hincl]. }
+  assert (Hin : In v (map enc_or_0 triples)) by (apply Hback; apply in_seq; lia).
   apply in_map_iff in Hin. destruct Hin as [[[f l] t] [Hea Hx]]. apply in_triples in Hx.
   exists f, l, t. split; [exact Hx|].
   unfold enc_or_0 in Hea. cbn [fst snd] in Hea.
